@@ -396,7 +396,7 @@ def netBlock (e : Env) (scheme netloc0 : Str) : R (Str × Option NetPre) :=
         | none => if Gen.schemeRequiresHost.contains scheme then .error .valueError else pure [] : R Str)
       let host1 ← encodeHost e.o host0 false
       -- a bracketed host that is not an IPv6 address keeps the brackets the input had
-      let host := if mem 91 netloc0 && !mem 91 host1 then [91] ++ host1 ++ [93] else host1
+      let host := if mem 91 (rpartition 64 netloc0).2.2 && !mem 91 host1 then [91] ++ host1 ++ [93] else host1
       let rawHost := if mem 91 host then (host.drop 1).dropLast else host
       if np.password.isNone && np.user.isNone then
         let netloc := match np.port with
@@ -691,7 +691,8 @@ theorem netBlock_basic (e : Env) (scheme : Str) {h : Str} (hh : HostBasic h) :
   have h64 : mem 64 h = false := hostBasic_notMem hh (by decide)
   have h91 : mem 91 h = false := hostBasic_notMem hh (by decide)
   simp only [isEmpty_false hh.1, h58, h64, h91, Bool.or_self, Bool.false_eq_true, if_false, bind, Except.bind,
-    pure, Except.pure, encodeHost_basic e.o hh false rfl]
+    pure, Except.pure, encodeHost_basic e.o hh false rfl,
+    ParseLemmas.rpartition_snd_snd_of_mem_false h64]
   simp [h91]
 
 /-! ### dot segments -/
@@ -1429,7 +1430,7 @@ def netRest (e : Env) (scheme netloc0 : Str) (np : NetlocParts) : R (Str × Opti
     | some h => pure h
     | none => if Gen.schemeRequiresHost.contains scheme then .error .valueError else pure [] : R Str)
   let host1 ← encodeHost e.o host0 false
-  let host := if mem 91 netloc0 && !mem 91 host1 then [91] ++ host1 ++ [93] else host1
+  let host := if mem 91 (rpartition 64 netloc0).2.2 && !mem 91 host1 then [91] ++ host1 ++ [93] else host1
   let rawHost := if mem 91 host then (host.drop 1).dropLast else host
   if np.password.isNone && np.user.isNone then
     let netloc := match np.port with
@@ -1477,13 +1478,14 @@ theorem netBlock_authority (e : Env) (scheme : Str) {user pw : Option Str} {h : 
       rw [hA]; rfl
   have hraw : (if mem 91 (bracket h) then ((bracket h).drop 1).dropLast else bracket h) = h :=
     unbracket_bracket h hh.ok
-  have hkeep : (if mem 91 (authText user pw h port) && !mem 91 (bracket h) then [91] ++ bracket h ++ [93]
+  have hkeep : (if mem 91 (rpartition 64 (authText user pw h port)).2.2 && !mem 91 (bracket h) then [91] ++ bracket h ++ [93]
       else bracket h) = bracket h := by
     by_cases h58 : 58 ∈ h
     · have : mem 91 (bracket h) = true := by
         unfold bracket; rw [if_pos (mem_iff.mpr h58)]; exact mem_iff.mpr (by simp)
       simp [this]
-    · have : mem 91 (authText user pw h port) = false := mem_false_iff.mpr (authText_no91 port hu hh h58)
+    · have : mem 91 (rpartition 64 (authText user pw h port)).2.2 = false :=
+        ParseLemmas.mem_rpartition_snd_snd_false (mem_false_iff.mpr (authText_no91 port hu hh h58))
       simp [this]
   rw [netBlock_eq, hne, hnp]
   simp only [Bool.false_eq_true, if_false, bind, Except.bind, netRest, pure, Except.pure, hh.enc, hkeep, hraw]
